@@ -643,8 +643,9 @@ class AsyncFIXConnection:
                     await self.send_msg(gap_fill_msg)
 
                 # and then resent the replayMsg
-                replay_msg[FTag.PossDupFlag] = "Y"
-                replay_msg[FTag.OrigSendingTime] = replay_msg[FTag.SendingTime]
+                replay_msg.set(FTag.PossDupFlag, "Y", replace=True)
+                if FTag.OrigSendingTime not in replay_msg:
+                    replay_msg[FTag.OrigSendingTime] = replay_msg[FTag.SendingTime]
                 del replay_msg[FTag.MsgType]
                 del replay_msg[FTag.BeginString]
                 del replay_msg[FTag.BodyLength]
